@@ -1,7 +1,7 @@
 (* C05 -- AUROC, AUPRC, PR curves, recall@precision equal their definitions incl. ties.
    Statements only; proofs live in Proofs/CurvesP.v. *)
 From Coq Require Import ZArith List Bool QArith Qcanon Sorted Permutation.
-From TE Require Import Base.Val Base.Xq Models.Curves Proofs.CurvesP Proofs.CurvesPR.
+From TE Require Import Base.Val Base.Xq Models.Curves Proofs.CurvesP Proofs.CurvesPR Proofs.CurvesMC.
 Import ListNotations.
 Open Scope Qc_scope.
 
@@ -95,6 +95,12 @@ Theorem multilabel_recall_at_precision_per_label : forall den minp L l, minp <= 
   mlrap_algo den minp L l = mlrap_spec den minp L l.
 Proof. exact mlrap_algo_spec. Qed.
 
+(* multiclass = one-vs-rest binary results (the vectorised flip / pad / split pipeline) and their average *)
+Theorem multiclass_prc_ovr : forall C l, mcprc_algo C l = mcprc_spec C l.
+Proof. exact mcprc_algo_spec. Qed.
+Theorem multiclass_auprc_ovr : forall C macro l, mcauprc_algo C macro l = mcauprc_spec C macro l.
+Proof. exact mcauprc_algo_spec. Qed.
+
 (* non-vacuity: ties, an all-negative input (recall NaN -> 1), the threshold sentinel *)
 Example prc_example :
   let w := mkq 1%Z 1%positive in
@@ -120,3 +126,5 @@ Print Assumptions binary_auprc_spec.
 Print Assumptions multilabel_auprc_per_label.
 Print Assumptions multilabel_prc_per_label.
 Print Assumptions multilabel_recall_at_precision_per_label.
+Print Assumptions multiclass_prc_ovr.
+Print Assumptions multiclass_auprc_ovr.
